@@ -85,6 +85,13 @@ pub fn kind_extended() -> impl Strategy<Value = OpKind> {
         1 => Just(OpKind::SockOpt),
         1 => Just(OpKind::Statx),
         1 => any::<bool>().prop_map(|v6| OpKind::Connect { v6 }),
+        1 => (1u16..2000, 1u16..2000).prop_map(|(a, b)| OpKind::RecvFromVectored { a, b }),
+        1 => (1u16..2000, 1u16..2000).prop_map(|(a, b)| OpKind::RecvVectored { a, b }),
+        1 => (0u16..2000, 1u16..2000, any::<bool>()).prop_map(|(a, b, v6)| OpKind::SendToVectored { a, b, v6 }),
+        1 => (0u16..2000, 1u16..2000).prop_map(|(a, b)| OpKind::SendVectored { a, b }),
+        1 => any::<bool>().prop_map(|peer| OpKind::SocketName { peer }),
+        1 => Just(OpKind::SetSockOpt),
+        1 => Just(OpKind::ReceiveSignal),
         3 => kind_args(),
         3 => kind_paths(),
     ]
